@@ -49,6 +49,9 @@ type Config struct {
 	// MaxExecMs > 0 sets max_sql_execute_time (needed for Fault kind "hang"). It arms real
 	// context timers inside the executor; keep it far above any scheduling hiccup.
 	MaxExecMs int `json:"max_exec_ms,omitempty"`
+	// RealMasters puts a real backend connection pool (see realpool.go) under the master group
+	// of every slice instead of a fake pool.
+	RealMasters bool `json:"real_masters,omitempty"`
 }
 
 func nsConfig(c Config) *models.Namespace {
@@ -105,6 +108,10 @@ type World struct {
 	sessions []*Sess
 	nextSess uint32
 
+	realPools []realPool
+	realConns map[int]*RealConn
+	realNext  int64
+
 	prepared   bool  // a reload is prepared but not committed
 	committing int32 // guards CommitReload
 }
@@ -138,6 +145,10 @@ func (w *World) patch(ns *server.Namespace) {
 			for _, n := range info.Nodes {
 				n.ConnPool.Close()
 				if role == "" {
+					continue
+				}
+				if role == "master" && w.cfg.RealMasters {
+					n.ConnPool = w.newRealPool(w.gen, name, role, n.Address)
 					continue
 				}
 				p := &Pool{w: w, Gen: w.gen, Slice: name, Role: role, addr: n.Address, out: map[int]*Conn{}}
